@@ -433,6 +433,14 @@ class Executor:
             f = self.prog.lookup(t)
         except MirSyntaxError:
             f = None
+        if f is None and '::' in t and '<' not in t:
+            # a constant declared inside a function is printed under its bare name
+            try:
+                g = self.prog.lookup(t.split('::')[-1])
+            except MirSyntaxError:
+                g = None
+            if g is not None and getattr(g, 'is_const', False):
+                f = g
         if f is not None and getattr(f, 'is_const', False):
             key = f.name
             if key not in self.const_cache:
